@@ -140,8 +140,8 @@ return ((g0, g1), (e0, e1))
     if last_domain is not None:
         selpre[-1] = 'h%d in %r' % (nsel - 1, tuple(last_domain))   # the last step ranges over a rotating sub-family (keeps a 3-step shard within its time budget)
     src = harness('PROBE = %r\nPROBE_FIRST = %r\n' % (probe, probe_first), sels + pa, selpre + pb + po, body, extra_defs=HIST_SRC)
-    return Obl('history[probe=%s,rows=%d,len=%d%s%s]' % (probe, rows, nsel, (',first=%d' % first) if first is not None else '', ('' if probe_first else ',history-first') + ((',last=' + '/'.join(map(str, last_domain))) if last_domain is not None else '')), src, timeout=timeout,
-               meta={'query': TEXT[probe], 'bounds': 'every history of %d steps over 20 scenarios (+ nothing) x every %d-row table of ints 0..2' % (nsel, rows)})
+    return Obl('history[probe=%s,rows=%d,len=%d%s%s]' % (probe, rows, nsel, (',first=%d' % first) if first is not None else '', ('' if probe_first else ',history-first') + ((',last=' + ('/'.join(map(str, last_domain)) if len(last_domain) <= 6 else ('even' if 2 in last_domain else 'odd'))) if last_domain is not None else '')), src, timeout=timeout,
+               meta={'query': TEXT[probe], 'bounds': 'every history of %d steps over 20 scenarios (+ nothing)%s x every %d-row table of ints 0..2' % (nsel, (' -- last step restricted to %r' % (tuple(last_domain),)) if last_domain is not None else '', rows)})
 
 
 SCHED_SRC = HIST_SRC + '''
@@ -256,7 +256,9 @@ def obligations(tier, seed):
             if quick and (first + pi + seed) % 3 != 0 and not p.startswith('named') and first not in (13, 14, 15, 16, 17) and not (first in (19, 20) and p in ('agg', 'join', 'top')):
                 continue
             pf = not p.startswith('named') and p != 'avgstr' and first not in (13, 14) and (first + pi) % 2 == 0
-            obs.append(_history_obl(p, 2, t, nsel=2, first=first, probe_first=pf))
+            # quick: the free second step ranges over a seed-rotated half of the scenario alphabet (the whole alphabet in thorough)
+            half = ([0] + [x for x in range(1, 21) if (x + pi + seed) % 2 == 0]) if quick else None
+            obs.append(_history_obl(p, 2, t, nsel=2, first=first, probe_first=pf, last_domain=half))
             if not quick:
                 obs.append(_history_obl(p, 2, t, nsel=2, first=first, probe_first=not pf))
                 if (first + pi + seed) % 4 == 0:
